@@ -37,7 +37,7 @@ def step (d : DSt) (ws : List String) : DSt × String :=
   | ["search", w, depth], _ =>
     match w.toNat?, depth.toNat? with
     | some w, some depth =>
-      (match searchTorn o w depth (init 0 0) [] with
+      (match searchTorn extractedGuards searchOrds w depth (init 0 0) [] with
        | none => (d, "none")
        | some tr => (d, "torn " ++ " ".intercalate (tr.map showLabel)))
     | _, _ => (d, "bad-op")
